@@ -86,6 +86,10 @@ INSTR_FLAGS = ["-finstrument-functions",
                "-finstrument-functions-exclude-function-list=addroundkey,subbytes,rowshift,columnmix,commonround,specround,get_key,genkey,genall,keyhandle,getXor,Aesmode,AesEncrypt,AesDecrypt,AesFactory,aeshandle"]
 
 
+# fine variant (C01/C02 round-robin pass): callbacks also inside the round functions, so that a block transform is not atomic for the scheduler
+INSTR_FLAGS_FINE = ["-finstrument-functions", "-finstrument-functions-exclude-function-list=get_key,genkey,genall,keyhandle,AesFactory"]
+
+
 _pruned = False
 
 
@@ -115,7 +119,7 @@ def _touch(p):
 
 
 def build_exe(name, harness_srcs, defs=(), sanitize="address", opt="-O1", repo_sources=None, libs=(), cxx="g++",
-              extra_flags=(), with_sched=True, main_cpp=False, instrument_sources=()):
+              extra_flags=(), with_sched=True, main_cpp=False, instrument_sources=(), instrument_fine=False):
     """Compile the repo sources (from the current working tree, hooks on) plus the harness into
     build/exe/<key>/<name>. Objects are cached by (repo fingerprint, flags)."""
     fp = repo_fingerprint()
@@ -139,9 +143,9 @@ def build_exe(name, harness_srcs, defs=(), sanitize="address", opt="-O1", repo_s
     objs = []
     for s in srcs:
         ins = s in instrument_sources  # function-entry/exit callbacks (scheduling points inside code that has no source hooks)
-        o = os.path.join(objdir, s.replace("/", "_") + (".instr.o" if ins else ".o"))
+        o = os.path.join(objdir, s.replace("/", "_") + ((".instrfine.o" if instrument_fine else ".instr.o") if ins else ".o"))
         objs.append(o)
-        jobs.append((cxx, os.path.join(REPO, s), o, flags + inc + (INSTR_FLAGS if ins else [])))
+        jobs.append((cxx, os.path.join(REPO, s), o, flags + inc + ((INSTR_FLAGS_FINE if instrument_fine else INSTR_FLAGS) if ins else [])))
     hdeps = [os.path.join(VERIF, "harness", f) for f in sorted(os.listdir(os.path.join(VERIF, "harness")))]
     hdeps += [os.path.join(VERIF, "sched", f) for f in sorted(os.listdir(os.path.join(VERIF, "sched")))]
     hdeps += [os.path.join(VERIF, "ref", f) for f in sorted(os.listdir(os.path.join(VERIF, "ref")))]
@@ -157,12 +161,15 @@ def build_exe(name, harness_srcs, defs=(), sanitize="address", opt="-O1", repo_s
         so = os.path.join(hobjdir, "vsched_%s.o" % sanitize)
         objs.append(so)
         cflags = ["-O1", "-g", "-fno-omit-frame-pointer", "-pthread", "-w"]
-        jobs.append(("gcc" if cxx == "g++" else "clang", os.path.join(VERIF, "sched", "vsched.c"), so, cflags))
+        jobs.append(("gcc" if cxx == "g++" else "clang", os.path.join(VERIF, "sched", "vsched.c"), so, cflags + ["-fexceptions"]))
+        sox = os.path.join(hobjdir, "vsched_cxx_%s.o" % sanitize)
+        objs.append(sox)
+        jobs.append((cxx, os.path.join(VERIF, "sched", "vsched_cxx.cpp"), sox, ["-std=c++17"] + cflags + ["-I" + os.path.join(VERIF, "sched")]))
     with cf.ThreadPoolExecutor(max_workers=NCPU) as ex:
         futs = [ex.submit(_compile_one, *j) for j in jobs]
         for f in futs:
             f.result()
-    exedir = os.path.join(BUILD, "exe", fp[:16] + "-" + fkey + "-" + hkey + ("-instr" if instrument_sources else ""))
+    exedir = os.path.join(BUILD, "exe", fp[:16] + "-" + fkey + "-" + hkey + (("-instrfine" if instrument_fine else "-instr") if instrument_sources else ""))
     os.makedirs(exedir, exist_ok=True)
     for p in (objdir, hobjdir, exedir):
         _touch(p)
